@@ -275,4 +275,182 @@ theorem kernel_flat_is_generated (times dfs : List ℝ) (i : ℕ) (t : ℝ) (hn 
       subst this
       exact ⟨_, by rw [if_neg h0, if_neg h, flat_step_is_generated_right times dfs t hn]⟩
 
+/-! ### LINEAR_ZERO_RATES -/
+
+section linzero
+variable (times dfs : List ℝ) (t : ℝ)
+
+theorem linzero_step_is_generated_first (i : ℕ) (h : i = 1) :
+    kLinZero times dfs i i (i - 1) i t = genLinZero times dfs i t := by
+  have d1 : decide ((i : ℤ) = 1) = true := decide_eq_true (by omega)
+  simp only [kLinZero, genLinZero, uinterp_k1, uinterp_k1_reads, rd, pyIdx_nat, pyIdx_sub1 _ _ (show 1 ≤ i by omega),
+    d1, if_true, exp_real, log_real]
+
+theorem linzero_step_is_generated_wrap (hn : 2 ≤ times.length) :
+    kLinZero times dfs (times.length - 1) 0 (times.length - 1) 0 t = genLinZero times dfs 0 t := by
+  have d1 : decide ((((0 : ℕ) : ℤ)) = 1) = false := decide_eq_false (by omega)
+  have d2 : decide ((((0 : ℕ) : ℤ)) < (times.length : ℤ)) = true := decide_eq_true (by omega)
+  simp only [kLinZero, genLinZero, uinterp_k1, uinterp_k1_reads, rd, pyIdx_nat,
+    pyIdx_wrap1 _ (show 1 ≤ times.length by omega), d1, d2, Bool.false_eq_true, if_true, if_false, exp_real, log_real]
+
+theorem linzero_step_is_generated (i : ℕ) (h2 : 2 ≤ i) (hi : i < times.length) :
+    kLinZero times dfs (i - 1) i (i - 1) i t = genLinZero times dfs i t := by
+  have d1 : decide ((i : ℤ) = 1) = false := decide_eq_false (by omega)
+  have d2 : decide ((i : ℤ) < (times.length : ℤ)) = true := decide_eq_true (by omega)
+  simp only [kLinZero, genLinZero, uinterp_k1, uinterp_k1_reads, rd, pyIdx_nat, pyIdx_sub1 _ _ (show 1 ≤ i by omega),
+    d1, d2, Bool.false_eq_true, if_true, if_false, exp_real, log_real]
+
+theorem linzero_step_is_generated_right (hn : 2 ≤ times.length) :
+    kLinZero times dfs (times.length - 1) (times.length - 1) (times.length - 2) (times.length - 1) t
+      = genLinZero times dfs times.length t := by
+  have d1 : decide ((times.length : ℤ) = 1) = false := decide_eq_false (by omega)
+  have d2 : decide ((times.length : ℤ) < (times.length : ℤ)) = false := decide_eq_false (by omega)
+  simp only [kLinZero, genLinZero, uinterp_k1, uinterp_k1_reads, rd, pyIdx_nat,
+    pyIdx_sub1 _ _ (show 1 ≤ times.length by omega), pyIdx_sub2 _ _ hn, d1, d2, Bool.false_eq_true, if_false,
+    exp_real, log_real]
+
+end linzero
+
+/-- **LINEAR_ZERO_RATES: `kernel 4` is the generated branch** for every located index `0 ≤ i ≤ num_points`. -/
+theorem kernel_linzero_is_generated (times dfs : List ℝ) (i : ℕ) (t : ℝ) (hn : 2 ≤ times.length) (hi : i ≤ times.length) :
+    ∃ dens, kernel 4 times dfs i t = guardDiv dens (genLinZero times dfs i t) := by
+  rw [kernel_m4]
+  by_cases h1 : i = 1
+  · refine ⟨[g times 1, g times 1 - g times 0], ?_⟩
+    rw [if_pos h1, ← linzero_step_is_generated_first times dfs t i h1]
+    subst h1; rfl
+  · by_cases h0 : i = 0
+    · subst h0
+      exact ⟨_, by rw [if_neg h1, if_pos rfl, linzero_step_is_generated_wrap times dfs t hn]⟩
+    · by_cases h : i < times.length
+      · exact ⟨_, by rw [if_neg h1, if_neg h0, if_pos h, linzero_step_is_generated times dfs t i (by omega) h]⟩
+      · have : i = times.length := by omega
+        subst this
+        exact ⟨_, by rw [if_neg h1, if_neg h0, if_neg h, linzero_step_is_generated_right times dfs t hn]⟩
+
+/-! ### LINEAR_FWD_RATES -/
+
+section linfwd
+variable (times dfs : List ℝ) (t : ℝ)
+
+theorem linfwd_step_is_generated_first (i : ℕ) (h : i = 1) :
+    kLinFwdFirst times dfs t = genLinFwd times dfs i t := by
+  have d1 : decide ((i : ℤ) = 1) = true := decide_eq_true (by omega)
+  subst h
+  simp only [kLinFwdFirst, genLinFwd, uinterp_k3, uinterp_k3_reads, rd, pyIdx_nat, d1, if_true, exp_real, log_real]
+
+theorem linfwd_step_is_generated_wrap (hn : 2 ≤ times.length) :
+    kLinFwdInt times dfs (times.length - 2) (times.length - 1) 0 t = genLinFwd times dfs 0 t := by
+  have d1 : decide ((((0 : ℕ) : ℤ)) = 1) = false := decide_eq_false (by omega)
+  have d2 : decide ((((0 : ℕ) : ℤ)) < (times.length : ℤ)) = true := decide_eq_true (by omega)
+  simp only [kLinFwdInt, genLinFwd, uinterp_k3, uinterp_k3_reads, rd, pyIdx_nat,
+    pyIdx_wrap1 _ (show 1 ≤ times.length by omega), pyIdx_wrap2 _ hn, d1, d2, Bool.false_eq_true, if_true, if_false,
+    exp_real, log_real]
+
+theorem linfwd_step_is_generated (i : ℕ) (h2 : 2 ≤ i) (hi : i < times.length) :
+    kLinFwdInt times dfs (i - 2) (i - 1) i t = genLinFwd times dfs i t := by
+  have d1 : decide ((i : ℤ) = 1) = false := decide_eq_false (by omega)
+  have d2 : decide ((i : ℤ) < (times.length : ℤ)) = true := decide_eq_true (by omega)
+  simp only [kLinFwdInt, genLinFwd, uinterp_k3, uinterp_k3_reads, rd, pyIdx_nat, pyIdx_sub1 _ _ (show 1 ≤ i by omega),
+    pyIdx_sub2 _ _ h2, d1, d2, Bool.false_eq_true, if_true, if_false, exp_real, log_real]
+
+theorem linfwd_step_is_generated_right (hn : 2 ≤ times.length) :
+    kLinFwdRight times dfs (times.length - 2) (times.length - 1) t = genLinFwd times dfs times.length t := by
+  have d1 : decide ((times.length : ℤ) = 1) = false := decide_eq_false (by omega)
+  have d2 : decide ((times.length : ℤ) < (times.length : ℤ)) = false := decide_eq_false (by omega)
+  simp only [kLinFwdRight, genLinFwd, uinterp_k3, uinterp_k3_reads, rd, pyIdx_nat,
+    pyIdx_sub1 _ _ (show 1 ≤ times.length by omega), pyIdx_sub2 _ _ hn, d1, d2, Bool.false_eq_true, if_false,
+    exp_real, log_real]
+
+end linfwd
+
+/-- **LINEAR_FWD_RATES: `kernel 2` is the generated branch** for every located index `0 ≤ i ≤ num_points`. -/
+theorem kernel_linfwd_is_generated (times dfs : List ℝ) (i : ℕ) (t : ℝ) (hn : 2 ≤ times.length) (hi : i ≤ times.length) :
+    ∃ dens, kernel 2 times dfs i t = guardDiv dens (genLinFwd times dfs i t) := by
+  rw [kernel_m2]
+  by_cases h1 : i = 1
+  · exact ⟨_, by rw [if_pos h1, linfwd_step_is_generated_first times dfs t i h1]⟩
+  · by_cases h0 : i = 0
+    · subst h0
+      exact ⟨_, by rw [if_neg h1, if_pos rfl, linfwd_step_is_generated_wrap times dfs t hn]⟩
+    · by_cases h : i < times.length
+      · exact ⟨_, by rw [if_neg h1, if_neg h0, if_pos h, linfwd_step_is_generated times dfs t i (by omega) h]⟩
+      · have : i = times.length := by omega
+        subst this
+        exact ⟨_, by rw [if_neg h1, if_neg h0, if_neg h, linfwd_step_is_generated_right times dfs t hn]⟩
+
+/-! ### the whole function -/
+
+/-- the generated branch selected by the position `k` of the method chain. -/
+noncomputable def genKernel (k : ℤ) (times dfs : List ℝ) (i : ℕ) (t : ℝ) : ℝ :=
+  if k = 1 then genLinZero times dfs i t else if k = 2 then genFlat times dfs i t else genLinFwd times dfs i t
+
+/-- **`_uinterpolate` is its generated pieces**: the generated first-knot test, then the generated method chain applied to the
+generated branch body at the located index (`locate_is_generated_loop`: the generated loop followed by the generated
+right-of-knot test), up to the division-by-zero guard of the compiled code.  Two knots or more (one knot: finding
+`C02/single-knot-curve`). -/
+theorem uinterp_is_generated (method : ℤ) (times dfs : List ℝ) (t : ℝ) (hn : 2 ≤ times.length) :
+    ∃ dens, uinterp method times dfs t =
+      if Gen.InterpLoopR.uinterp_first t (rd times times.length uinterp_first_reads.1) then
+        .ok (rd dfs times.length uinterp_first_reads.2)
+      else match uinterp_dispatch method with
+        | .error e => .error e
+        | .ok k => guardDiv dens (genKernel k times dfs (locate times t) t) := by
+  have hr1 : rd times times.length uinterp_first_reads.1 = g times 0 := by simp [uinterp_first_reads, rd, pyIdx]
+  have hr2 : rd dfs times.length uinterp_first_reads.2 = g dfs 0 := by simp [uinterp_first_reads, rd, pyIdx]
+  rw [hr1, hr2]
+  by_cases ht : t = g times 0
+  · refine ⟨[], ?_⟩
+    subst ht
+    rw [Model.C02.uinterp_first method times dfs (by omega)]
+    simp [Gen.InterpLoopR.uinterp_first]
+  · have hloc := locate_le times t (by omega)
+    have hf : Gen.InterpLoopR.uinterp_first t (g times 0) = false := by simp [Gen.InterpLoopR.uinterp_first, ht]
+    rw [uinterp_kernel method times dfs t hn ht, hf]
+    simp only [Bool.false_eq_true, if_false]
+    by_cases h4 : method = 4
+    · subst h4
+      obtain ⟨d, hd⟩ := kernel_linzero_is_generated times dfs (locate times t) t hn hloc
+      exact ⟨d, by rw [hd]; simp [uinterp_dispatch, genKernel]⟩
+    · by_cases h1 : method = 1
+      · subst h1
+        obtain ⟨d, hd⟩ := kernel_flat_is_generated times dfs (locate times t) t hn hloc
+        exact ⟨d, by rw [hd]; simp [uinterp_dispatch, genKernel]⟩
+      · by_cases h2 : method = 2
+        · subst h2
+          obtain ⟨d, hd⟩ := kernel_linfwd_is_generated times dfs (locate times t) t hn hloc
+          exact ⟨d, by rw [hd]; simp [uinterp_dispatch, genKernel]⟩
+        · refine ⟨[], ?_⟩
+          rw [kernel_other method times dfs _ t h1 h2 h4]
+          simp [uinterp_dispatch, h1, h2, h4]
+
+/-- the hypotheses of the theorems above are satisfiable (two knots, a query between them). -/
+example : ∃ (times : List ℝ) (t : ℝ), 2 ≤ times.length ∧ locate times t ≤ times.length ∧ t ≠ g times 0 :=
+  ⟨[0, 1], 0.5, by simp, locate_le _ _ (by simp), by norm_num [g]⟩
+
+/-! ### index bounds of the generated reads (no out-of-range read for a located index `≥ 1`) -/
+
+/-- FLAT_FWD_RATES, interior (`1 ≤ i < n`): the branch reads knots `i-1` and `i` of both arrays, both inside `[0, n)`. -/
+theorem flat_reads_in_range (n i : ℕ) (h1 : 1 ≤ i) (hi : i < n) :
+    let r := uinterp_k2_reads i
+    (0 ≤ r.1 ∧ r.1 < n) ∧ (0 ≤ r.2.1 ∧ r.2.1 < n) ∧ r.2.2.1 = r.2.1 ∧ r.2.2.2.1 = r.1 := by
+  dsimp only [uinterp_k2_reads]; omega
+
+/-- FLAT_FWD_RATES, right extrapolation (`i = n ≥ 2`): the branch reads knots `n-2` and `n-1`, both inside `[0, n)`. -/
+theorem flat_reads_in_range_right (n : ℕ) (hn : 2 ≤ n) :
+    let r := uinterp_k2_reads n
+    (0 ≤ r.2.2.2.2.1 ∧ r.2.2.2.2.1 < n) ∧ (0 ≤ r.1 ∧ r.1 < n) ∧ r.2.2.2.2.2 = r.2.2.2.2.1 ∧ r.2.2.2.1 = r.1 := by
+  dsimp only [uinterp_k2_reads]; omega
+
+/-- a query left of the first knot (`i = 0`) reads index `-1`: the wrap-around read behind finding
+`C02/zeros-first-pillar-after-valuation` is in the generated text itself. -/
+theorem flat_reads_wrap_at_zero : (uinterp_k2_reads 0).1 = -1 ∧ (uinterp_k2_reads 0).2.2.2.1 = -1 := by
+  simp [uinterp_k2_reads]
+
+/-- LINEAR_FWD_RATES, interior (`2 ≤ i < n`): knots `i-2`, `i-1`, `i`, all inside `[0, n)`. -/
+theorem linfwd_reads_in_range (n i : ℕ) (h2 : 2 ≤ i) (hi : i < n) :
+    let r := uinterp_k3_reads i
+    (0 ≤ r.2.2.2.1 ∧ r.2.2.2.1 < n) ∧ (0 ≤ r.2.2.1 ∧ r.2.2.1 < n) ∧ (0 ≤ r.1 ∧ r.1 < n) := by
+  dsimp only [uinterp_k3_reads]; omega
+
 end FinVerif.Props.C02
